@@ -326,8 +326,8 @@ def run(ctx: core.Ctx):
                         "`\"..\"|safe`); containers are lifted leaf-wise", "exceptions compared by class name",
                         "`sameas` not generated"]
     ctx.pmap(depth01_shard, [(quick, i) for i in range(-1, len(FORMS))])
-    plan = [("d2-sub", space("d2-sub").count(), 1, 2, 300)] if quick else [
-        ("d2", space("d2").count(), 3, 3, 300), ("d3", space("d3").count(), 1, 1, 2000)]
+    plan = [("d2-sub", space("d2-sub").count(), 3, 1, 200)] if quick else [
+        ("d2", space("d2").count(), 3, 2, 300), ("d3", space("d3").count(), 1, 1, 2000)]
     shards = []
     for sname, cnt, nvec, nctx, chunk in plan:
         shards += [(sname, a, b, nvec, nctx) for a, b in ranges(cnt, chunk)]
